@@ -15,6 +15,8 @@ def main():
         out = json.load(open(resf))
     for sid in ids:
         d = os.path.join(VERIF, "seeded", sid)
+        if not os.path.exists(os.path.join(d, "meta.json")):
+            continue
         meta = json.load(open(os.path.join(d, "meta.json")))
         props = [meta["breaks_property"]] + list(meta.get("also_check", []))
         tmp = tempfile.mkdtemp(prefix="seedreg_")
